@@ -40,3 +40,16 @@ Definition c06_ocase := (cfg * bool * N * list c06_ostep)%type.
 Definition c06_ook (c : c06_ocase) : bool :=
   let '(cf, handle, api, steps) := c in
   match compile cf with Ok pol => run_outbound cf pol [] handle api steps | _ => false end.
+
+(* histories with re-markings: steps (hstep, observed: delivered / entered the mesh; ignored for marks) *)
+Fixpoint run_hist (cf : cfg) (pol : policy) (handle : bool) (api : N) (ch : cache) (l : list (hstep * bool)) : bool :=
+  match l with
+  | [] => true
+  | (s, o) :: t =>
+    let '(v, ch') := hstep_run cf pol handle api ch s in
+    (match v with Some x => Bool.eqb (verdict_eqb x Deliver) o | None => true end) && run_hist cf pol handle api ch' t
+  end.
+Definition c06_hcase := (cfg * bool * N * list (hstep * bool))%type.
+Definition c06_hok (c : c06_hcase) : bool :=
+  let '(cf, handle, api, steps) := c in
+  match compile cf with Ok pol => run_hist cf pol handle api [] steps | _ => false end.
